@@ -591,6 +591,8 @@ def complex_lax_coercion_loader(data):
         raise TypeLoadError(Union[str, complex], data)
     except ValueError:
         raise ValueLoadError("Bad string format", data)
+    except OverflowError as e:
+        raise ValueLoadError(str(e), data)
 
 
 COMPLEX_PROVIDER = ScalarProvider(
